@@ -12,14 +12,15 @@
      NoException         prepare / call / close deliver no exception to the
                          caller (except the report of a launch that failed)
      Answered            every operation that began has ended
+     OwnReply            a call that returns returns the reply to ITS request (an event CallEnd whose info is
+                         "mispaired" carries another call's reply: being answered means being answered oneself)
      CloseEndsSession    when close() returns, the server it was connected to
                          has exited
 
    An operation that overlaps an *effective* close() of another thread (one that
    sent 'close' or closed the connection) races with it: the property does not
-   constrain such operations, and because a raced call can take the reply of a
-   later, innocent call on the shared connection (replies are not addressed),
-   nothing is required of a run from the first such race on.
+   constrain such operations, and nothing is required of a run from the first
+   such race on.
 
    Events: [e, t, k, res, cls, sid, info]
      PrepBegin/CallBegin/CloseBegin (t, k)    PrepEnd/CallEnd/CloseEnd (t, k, res ok|exc, cls, info)
@@ -105,8 +106,10 @@ Consume(c) ==
             IN
             /\ UNCHANGED <<live, pend>>
             /\ mustExit' = IF cleanClose THEN mustExit \cup {p[2] : p \in {p \in pend : p[1] = e.t}} ELSE mustExit
-            /\ bad' = (bad \/ ~excOk)
-            /\ Check(c, excOk, "NoException", <<l, e.t, e.cls>>)
+            /\ LET own == tainted \/ ~(Kind(e) = "call" /\ e.res = "ok" /\ e.info = "mispaired") IN
+               /\ bad' = (bad \/ ~excOk \/ ~own)
+               /\ Check(c, excOk, "NoException", <<l, e.t, e.cls>>)
+               /\ Check(c, own, "OwnReply", <<l, e.t, e.k>>)
        [] OTHER -> UNCHANGED <<live, bad, pend, mustExit>>
   /\ UNCHANGED cid
 
